@@ -47,6 +47,43 @@ QOf(f, sep) == Join([i \in 1..Len(f) |-> QComp(f[i])], sep)
 
 Bool(k) == k = 2
 
+\* C16: timestamps.  Base instant 2015-08-30T12:36:00Z; F(form) inserts '-' and ':' when extended.
+TsMake(y4, mo, d, hh, mi, ss, d1, d2, c1, c2, frac, zone) ==
+    y4 \o (IF d1 THEN <<45>> ELSE <<>>) \o mo \o (IF d2 THEN <<45>> ELSE <<>>) \o d \o <<84>>
+       \o hh \o (IF c1 THEN <<58>> ELSE <<>>) \o mi \o (IF c2 THEN <<58>> ELSE <<>>) \o ss \o frac \o zone
+TsBase(ext, zone) == TsMake(B("2015"), B("08"), B("30"), B("12"), B("36"), B("00"), ext, ext, ext, ext, <<>>, zone)
+TsYears == << B("0000"), B("0001"), B("0999"), B("1000"), B("1900"), B("2000"), B("2100"), B("9999") >>
+TsCalYears == << B("1900"), B("2000"), B("2015"), B("2016"), B("2100") >>
+TsZones == << B("Z"), B("+0530"), B("-02:45"), B("+00:00"), B("-1900"), B("+19:59") >>
+TsFracDigits(n, pat) == [i \in 1..n |-> CASE pat = 1 -> 48 + (i % 10) [] pat = 2 -> 57 [] pat = 3 -> 48]
+TsAffix == <<
+    B(" 20150830T123600Z"), B("20150830T123600Z "), <<10>> \o B("20150830T123600Z"), B("20150830T123600Z") \o <<10>>,
+    <<0>> \o B("20150830T123600Z"), B("20150830T123600Z") \o <<0>>, B("120150830T123600Z"), B("20150830T123600Z1"),
+    B("20150830T123600ZZ"), B("20150830T123600"), B("20150830T123600+"), B("20150830T123600+05"), B("20150830T123600+053"),
+    B("20150830t123600Z"), B("20150830T123600z"), B("20150830 123600Z"), B("20150830123600Z"), B("2015083T123600Z"),
+    B("20150830T1236Z"), B("20150830T12Z"), B("20150830"), B("20150830T123600.Z"), B("20150830T123600,Z"),
+    B("20150830T123600.5"), B("20150830T123600.5.5Z"), B("2015-08-30T12:36:00Z"), B("2015-08-30T12:36:00+00:00"),
+    B("Sun, 30 Aug 2015 12:36:00 GMT"), <<>>, B("Z"), B("T"), B("20150830T123600-0000"), B("20150830T123600+2400"),
+    B("+20150830T123600Z"), B("-0150830T123600Z"), B("2015-W35-7T12:36:00Z"), B("2015-242T12:36:00Z"),
+    B("20150830T123660Z"), B("20150830T123661Z"), B("20150830T240000Z"), B("20160229T000000Z"), B("20150229T000000Z"),
+    B("21000229T000000Z"), B("20000229T000000Z"), B("20150830T123600.123456789123Z"), B("2015-08-30T12:36:00,5+01:00"),
+    B("99991231T235959Z"), B("99991231T235959-0100"), B("00010101T000000Z"), B("00010101T000000+0100") >>
+
+\* C06: secrets (by length and content) and capacities, dates, regions/services
+KeySecretOfLen(n, kind) == [i \in 1..n |-> CASE kind = 1 -> 97 + (i % 26)
+                                               [] kind = 2 -> IF i = n THEN 0 ELSE 65 + (i % 26)
+                                               [] kind = 3 -> IF i % 2 = 1 THEN 195 ELSE 169]
+KeyLens == <<0, 1, 5, 36, 39, 40, 41, 44, 60, 61, 96, 97, 100>>
+KeyCaps == <<0, 3, 4, 5, 8, 44, 64, 100>>
+KeyDates == << <<1, 1, 1>>, <<999, 12, 31>>, <<1000, 1, 1>>, <<2000, 2, 29>>, <<2015, 8, 30>>, <<2016, 2, 29>>,
+               <<2100, 2, 28>>, <<9999, 12, 31>>, <<2015, 1, 1>>, <<2015, 1, 31>>, <<2015, 2, 1>>, <<2015, 2, 28>>,
+               <<2015, 3, 1>>, <<2015, 4, 30>>, <<2015, 9, 9>>, <<2015, 10, 10>>, <<2015, 12, 1>>, <<2015, 12, 31>> >>
+KeyNames == << <<>>, B("us-east-1"), <<195, 169>>, [i \in 1..300 |-> 97 + (i % 26)], B("aws4_request"), B("s3") >>
+KeyChainSecrets == << KeySecretOfLen(40, 1), <<>>, KeySecretOfLen(1, 1), KeySecretOfLen(39, 2), KeySecretOfLen(40, 2),
+                      KeySecretOfLen(40, 3), KeySecretOfLen(20, 1), B("wJalrXUtnFEMI/K7MDENG+bPxRfiCYEXAMPLEKEY") >>
+
+HvalSigma == <<32, 97, 98, 44, 9, 233>>
+
 \* size of dimension k; 0 = no such dimension
 Dim(k) ==
     CASE Family = "path_segs"    -> IF k = 1 THEN 2 ELSE IF k <= Bound + 1 THEN Len(PathSigma) ELSE 0
@@ -57,13 +94,50 @@ Dim(k) ==
       [] Family = "query_lists"  -> IF k <= Bound THEN 80 ELSE 0
       [] Family = "query_ampamp" -> IF k = 1 THEN 3 ELSE IF k <= Bound + 1 THEN 80 ELSE 0
       [] Family = "query_bytes"  -> IF k <= 3 THEN <<256, 5, 3>>[k] ELSE 0
+      [] Family = "ts_field"     -> IF k <= 3 THEN <<5, 100, 2>>[k] ELSE 0
+      [] Family = "ts_year"      -> IF k <= 2 THEN <<Len(TsYears), 2>>[k] ELSE 0
+      [] Family = "ts_offset"    -> IF k <= 4 THEN <<2, 100, 100, 2>>[k] ELSE 0
+      [] Family = "ts_calendar"  -> IF k <= 4 THEN <<Len(TsCalYears), 12, 31, 2>>[k] ELSE 0
+      [] Family = "ts_frac"      -> IF k <= 4 THEN <<13, 2, 3, 2>>[k] ELSE 0
+      [] Family = "ts_seps"      -> IF k <= 5 THEN <<2, 2, 2, 2, Len(TsZones)>>[k] ELSE 0
+      [] Family = "ts_affix"     -> IF k = 1 THEN Len(TsAffix) ELSE 0
+      [] Family = "key_caps"     -> IF k <= 3 THEN <<Len(KeyLens), 3, Len(KeyCaps)>>[k] ELSE 0
+      [] Family = "key_chain"    -> IF k <= 4 THEN <<Len(KeyChainSecrets), Len(KeyDates), Len(KeyNames), Len(KeyNames)>>[k] ELSE 0
+      [] Family = "hval"         -> IF k <= Bound THEN Len(HvalSigma) ELSE 0
 
 \* does this node denote a case?  (variable-length families emit at every depth)
 IsCase ==
     CASE Family = "path_segs"    -> Len(idx) >= 1
       [] Family = "query_lists"  -> TRUE
       [] Family = "query_ampamp" -> Len(idx) >= 2
+      [] Family = "hval"         -> TRUE
       [] OTHER -> Dim(Len(idx) + 1) = 0
+
+TsCase ==
+    CASE Family = "ts_field" ->
+            LET v   == Dec(idx[2] - 1, 2)
+                ext == Bool(idx[3])
+                f(k, dflt) == IF idx[1] = k THEN v ELSE dflt
+            IN TsMake(B("2015"), f(1, B("08")), f(2, B("30")), f(3, B("12")), f(4, B("36")), f(5, B("00")),
+                      ext, ext, ext, ext, <<>>, B("Z"))
+      [] Family = "ts_year" ->
+            LET ext == Bool(idx[2]) IN
+            TsMake(TsYears[idx[1]], B("03"), B("01"), B("12"), B("36"), B("00"), ext, ext, ext, ext, <<>>, B("Z"))
+      [] Family = "ts_offset" ->
+            TsBase(Bool(idx[4]), <<IF idx[1] = 1 THEN 43 ELSE 45>> \o Dec(idx[2] - 1, 2)
+                                  \o (IF Bool(idx[4]) THEN <<58>> ELSE <<>>) \o Dec(idx[3] - 1, 2))
+      [] Family = "ts_calendar" ->
+            LET ext == Bool(idx[4]) IN
+            TsMake(TsCalYears[idx[1]], Dec(idx[2], 2), Dec(idx[3], 2), B("23"), B("59"), B("59"),
+                   ext, ext, ext, ext, <<>>, B("Z"))
+      [] Family = "ts_frac" ->
+            LET ext == Bool(idx[4]) IN
+            TsMake(B("2015"), B("08"), B("30"), B("12"), B("36"), B("00"), ext, ext, ext, ext,
+                   <<IF idx[2] = 1 THEN 46 ELSE 44>> \o TsFracDigits(idx[1] - 1, idx[3]), B("Z"))
+      [] Family = "ts_seps" ->
+            TsMake(B("2015"), B("08"), B("30"), B("12"), B("36"), B("00"),
+                   Bool(idx[1]), Bool(idx[2]), Bool(idx[3]), Bool(idx[4]), <<>>, TsZones[idx[5]])
+      [] Family = "ts_affix" -> TsAffix[idx[1]]
 
 Case ==
     CASE Family = "path_segs" ->
@@ -93,6 +167,16 @@ Case ==
             [op |-> "query", q |-> CASE idx[1] = 1 -> QOf(f, <<38, 38>>)
                                      [] idx[1] = 2 -> <<38>> \o QOf(f, <<38>>)
                                      [] idx[1] = 3 -> QOf(f, <<38>>) \o <<38>>]
+      [] Family \in {"ts_field", "ts_year", "ts_offset", "ts_calendar", "ts_frac", "ts_seps", "ts_affix"} ->
+            [op |-> "ts", s |-> TsCase]
+      [] Family = "key_caps" ->
+            [op |-> "key", secret |-> KeySecretOfLen(KeyLens[idx[1]], idx[2]), cap |-> KeyCaps[idx[3]],
+             date |-> <<2015, 8, 30>>, region |-> B("us-east-1"), service |-> B("service")]
+      [] Family = "key_chain" ->
+            [op |-> "key", secret |-> KeyChainSecrets[idx[1]], cap |-> 44, date |-> KeyDates[idx[2]],
+             region |-> KeyNames[idx[3]], service |-> KeyNames[idx[4]]]
+      [] Family = "hval" ->
+            [op |-> "hval", v |-> [i \in 1..Len(idx) |-> HvalSigma[idx[i]]]]
       [] Family = "query_bytes" ->
             LET sp == Spelling(idx[1] - 1, idx[2]) IN
             [op |-> "query", q |-> CASE idx[3] = 1 -> B("k=") \o sp
